@@ -1940,7 +1940,8 @@ impl Model {
             }
             let g = &mut self.g;
             g.progress = false;
-            g.optional_zombies.clear();
+            // (not cleared between rounds: a choice that was open in an earlier round of this settle must be
+            // offered to the driver even if the work it concerns is gone by the end)
             let mut outs = vec![];
             for r in self.roots.iter_mut() {
                 r.cmd.run(g, &mut outs, always);
